@@ -35,6 +35,7 @@ const (
 	ssFallback = 1 << 4 // server: unsafeFallbackAddress configured
 	ssFixSalt  = 1 << 4 // client targets: echo the request salt (without touching the declared length)
 	ssRaw      = 1 << 5 // data is raw wire bytes, nothing is sealed
+	ssCutWire  = 1 << 2 // UDP targets: every datagram record starts with [cut u16][flip position u16][flip mask u8], applied to the wire packet after sealing
 	ssFixTS    = 1 << 6 // overwrite the timestamp with now
 	ssFixLen   = 1 << 7 // overwrite declared lengths / salts / session ids with the consistent values
 )
@@ -602,6 +603,11 @@ func ssUDPServerSeeds() (sels []uint8, seeds [][]byte) {
 			add(cfg|ssFixTS, cat(dgram(7, 0, ssUDPBody(ta, 0, []byte("q"))), dgram(7, 1, ssUDPBody(ta, 900, []byte("q"))), dgram(7, 1, ssUDPBody(ta, 0, nil))))
 			add(cfg|ssFixTS, cat(dgram(1, 1<<63, ssUDPBody(ta, 3, []byte("q"))), dgram(2, 0, ssUDPBody(ta, 3, []byte("q"))), dgram(1, 0, ssUDPBody(ta, 3, []byte("q")))))
 		}
+		// truncated / bit-flipped replays of genuine datagrams on an ESTABLISHED session (post-seal damage)
+		for _, ta := range []conn.Addr{targets[1], targets[0]} {
+			b := ssUDPBody(ta, 0, []byte("q"))
+			establishedCutSeeds(func(d []byte) { add(cfg|ssFixTS|ssCutWire, d) }, b, b, 77, 32+len(b)+16)
+		}
 		// extreme packet ids and session ids behind authentication: single packets and jumps of +-2^k within a session
 		body := ssUDPBody(targets[0], 0, []byte("q"))
 		for _, id := range extremeIDs {
@@ -655,8 +661,50 @@ func sealUDP(blk cipher.Block, aead cipher.AEAD, eih []byte, sid, pid uint64, bo
 	return out
 }
 
+// cutWire applies a post-seal damage header [cut u16][flip position u16][flip mask u8] to a wire packet: what an
+// on-path observer can do to a captured genuine datagram without any key (truncate it, flip bits in it).
+func cutWire(pkt, hdr []byte) []byte {
+	pkt = append([]byte(nil), pkt...)
+	if mask := hdr[4]; mask != 0 && len(pkt) > 0 {
+		pkt[int(binary.BigEndian.Uint16(hdr[2:]))%len(pkt)] ^= mask
+	}
+	return pkt[:min(int(binary.BigEndian.Uint16(hdr)), len(pkt))]
+}
+
+func cutHdr(cut, flipPos int, mask byte) []byte {
+	return []byte{byte(cut >> 8), byte(cut), byte(flipPos >> 8), byte(flipPos), mask}
+}
+
+// cutRec is a datagram record for ssCutWire inputs: [len][cut header][sid][pid][body].
+func cutRec(cut, flipPos int, mask byte, sid, pid uint64, body []byte) []byte {
+	d := dgram(sid, pid, body)[2:]
+	rec := cat(cutHdr(cut, flipPos, mask), d)
+	return cat(binary.BigEndian.AppendUint16(nil, uint16(len(rec))), rec)
+}
+
+// establishedCutSeeds: a genuine first datagram establishes the session, then a further genuine datagram of the same
+// session (or the first one again) arrives cut to every length 0..len and, at every length from 16 up, with its last
+// byte flipped. wireLen is an upper bound of the sealed packet length.
+func establishedCutSeeds(add func(data []byte), first, next []byte, sid uint64, wireLen int) {
+	full := func(pid uint64, body []byte) []byte { return cutRec(0xffff, 0, 0, sid, pid, body) }
+	for l := 0; l <= wireLen; l++ {
+		add(cat(full(0, first), cutRec(l, 0, 0, sid, 1, next)))
+		if l >= 16 {
+			add(cat(full(0, first), full(1, next), cutRec(l, l-1, 0x80, sid, 2, next)))
+		}
+		if l%4 == 0 {
+			add(cat(full(0, first), cutRec(l, 0, 0, sid, 0, first))) // prefix of the very first datagram (replayed)
+		}
+	}
+}
+
 // ssUDPServerPacket builds one client->server datagram from a plaintext record [sid][pid][body].
 func ssUDPServerPacket(sel uint8, pt []byte, ucc ss2022.UserCipherConfig, icc ss2022.ServerIdentityCipherConfig) ([]byte, error) {
+	if sel&ssCutWire != 0 {
+		hdr := take(&pt, 5)
+		pkt, err := ssUDPServerPacket(sel&^ssCutWire, pt, ucc, icc)
+		return cutWire(pkt, hdr), err
+	}
 	if sel&ssRaw != 0 {
 		return pt, nil
 	}
@@ -865,6 +913,10 @@ func ssUDPClientSeeds() (sels []uint8, seeds [][]byte) {
 			add(cfg|ssFixTS|ssFixLen, cat(dgram(5, 0, ssUDPServerBody(0, s, 0, []byte("r"))), dgram(5, 1, ssUDPServerBody(0, s, 900, []byte("r"))), dgram(5, 1, ssUDPServerBody(0, s, 0, nil))))
 			add(cfg|ssFixTS|ssFixLen, cat(dgram(5, 0, ssUDPServerBody(0, s, 0, []byte("r"))), dgram(6, 0, ssUDPServerBody(0, s, 1, []byte("r"))), dgram(5, 9, ssUDPServerBody(0, s, 0, nil)), dgram(7, 0, ssUDPServerBody(0, s, 0, nil))))
 		}
+		for _, src := range srcs[:2] {
+			b := ssUDPServerBody(0, src, 0, []byte("r"))
+			establishedCutSeeds(func(d []byte) { add(cfg|ssFixTS|ssFixLen|ssCutWire, d) }, b, b, 5, 16+len(b)+16)
+		}
 		sbody := ssUDPServerBody(0, srcs[0], 0, []byte("r"))
 		for _, id := range extremeIDs {
 			add(cfg|ssFixTS|ssFixLen, dgram(5, id, sbody))
@@ -899,6 +951,11 @@ func FuzzSS2022UDPClient(f *testing.F) {
 
 // ssUDPClientPacket builds one server->client datagram from a plaintext record [ssid][spid][body].
 func ssUDPClientPacket(sel uint8, pt []byte, csid uint64, cc *ss2022.ClientCipherConfig) ([]byte, error) {
+	if sel&ssCutWire != 0 {
+		hdr := take(&pt, 5)
+		pkt, err := ssUDPClientPacket(sel&^ssCutWire, pt, csid, cc)
+		return cutWire(pkt, hdr), err
+	}
 	if sel&ssRaw != 0 {
 		return pt, nil
 	}
